@@ -41,6 +41,16 @@ var (
 		Code:    dns.ExtendedErrorCodeDNSBogus,
 		Message: "RRsets covered by RRSIG are missing",
 	}
+	// ErrUnsupportedRRSIGAlgorithm: the RRSIG names an algorithm this
+	// validator does not implement. Zones whose DS RRset offers only such
+	// algorithms never get here (they are insecure, RFC 6840 §5.2); an RRset
+	// of a secure zone that no implemented signature vouches for is bogus.
+	// Unwrap keeps errors.Is(err, dns.ErrAlg) working.
+	ErrUnsupportedRRSIGAlgorithm = &dnsutil.EDEError{
+		Code:    dns.ExtendedErrorCodeDNSBogus,
+		Message: "RRSIG algorithm is not supported",
+		Err:     dns.ErrAlg,
+	}
 	ErrDSRecords = &dnsutil.EDEError{
 		Code:    dns.ExtendedErrorCodeDNSBogus,
 		Message: "Parent has DS records but zone appears unsigned",
